@@ -8,6 +8,9 @@ def replay(fam, pid, path) -> int:
     v = json.load(open(path))
     if 'scenario' not in v and 'funs' in v:
         v = {'scenario': v}
+    # corpus inputs of the non-scenario families (known_findings.json points at them)
+    if 'scenario' not in v and 'funcs' in v: v = {'scenario': {'module': v}}
+    elif 'scenario' not in v and ('src' in v or 'invs' in v or 'classes' in v or 'actions' in v): v = {'scenario': v}
     if 'scenario' not in v:
         # an obligation replay: rebuild the property file against the current tree
         with coq.Lock():
@@ -22,6 +25,8 @@ def replay(fam, pid, path) -> int:
     if hasattr(fam, 'replay'):
         return fam.replay(v, path)
     sc = v['scenario']
+    if not (isinstance(sc, dict) and ('funs' in sc or 'contracts' in sc)):
+        return replay_by_rerun(fam, pid, path, v)
     obs = scn.run_impl([sc])[0]
     print('observation:', obs)
     res = fam.monitor(sc, obs)
@@ -31,4 +36,36 @@ def replay(fam, pid, path) -> int:
         print(f'VIOLATION property={pid} replay={path}')
         return 1
     print('monitor: property holds on this scenario')
+    return 0
+
+
+def replay_by_rerun(fam, pid, path, v) -> int:
+    """families whose scenarios are not scenario-language terms: feed the recorded input back to the family (monitor only) when its
+    run() accepts inputs, else re-run the family with the recorded seed and tier and look for the recorded input"""
+    from .core import FamilyResult, Ctx
+    import inspect
+    sc = v['scenario']
+    ctx = Ctx(pid, v.get('tier', 'quick'), int(v.get('seed', 0) or 0))
+    fr = FamilyResult()
+    params = inspect.signature(fam.run).parameters
+    kw = None
+    if pid == 'C16' and 'files' in params and 'src' in sc: kw = {'files': [{'src': sc['src'], 'origin': sc.get('origin', 'replay'), 'name': 'm0000.py'}]}
+    elif pid == 'C17' and 'cases' in params and 'src' in sc: kw = {'cases': [{'src': sc['src'], 'items': [sc['item']] if 'item' in sc else [], 'helpers': ''}]}
+    elif pid == 'C18' and 'mods' in params and 'module' in sc: kw = {'mods': [sc['module']]}
+    elif pid == 'C19' and 'cases' in params and 'src' in sc: kw = {'cases': [{'src': sc['src'], 'types': sc['types'], 'quote': sc.get('quote', "'"), 'origin': sc.get('origin')}]}
+    if kw is not None:
+        fam.run(ctx, fr, model_available=False, **kw)
+        hits = fr.violations
+    else:
+        fam.run(ctx, fr, model_available=False)
+        key = json.dumps(sc, sort_keys=True, default=str)
+        hits = [x for x in fr.violations if json.dumps(x.get('scenario'), sort_keys=True, default=str) == key]
+        if not hits and v.get('what'):
+            hits = [x for x in fr.violations if x.get('what') == v['what']]
+    for x in hits[:5]:
+        print('monitor:', x.get('what'), f"[{x.get('signature')}]" if x.get('signature') else '')
+    if hits:
+        print(f'VIOLATION property={pid} replay={path}')
+        return 1
+    print('monitor: the recorded input does not violate the property on this tree')
     return 0
